@@ -154,6 +154,7 @@ func (x *Exec) simple(fr *Frame, st *State, in ssa.Instruction) {
 		if p.K == KRef {
 			x.guard(fr, st, in, "nil-deref:store", sNot(sEq(p.S, "0")))
 		}
+		x.guardedAccess(fr, st, in, p, true)
 		if val.K == KOpaque || val.K == KFunc || val.K == KAddr {
 			// storing an unmodelled value: the location becomes unknown
 			x.storeUnknown(st, p, val)
